@@ -321,6 +321,14 @@ func GenFS(r *core.Rand, dir string, cfg *FSCfg) *FSLayout {
 		p := fmt.Sprintf("/nowhere/%d/lib/x%d.go", r.Intn(5), k)
 		addFrame(FSFrame{Remote: p, Class: FSUnknown, Pkg: "nowhere/lib"})
 	}
+	// a flood of files from another machine: dozens of distinct absent paths that sort before every other file of the
+	// dump (a foreign library with many frames) - the files that do exist must be located all the same
+	if r.Chance(1, 6) {
+		n := 30 + r.Intn(45)
+		for k := 0; k < n; k++ {
+			addFrame(FSFrame{Remote: fmt.Sprintf("/!foreign/m%02d/f%02d.go", k%7, k), Class: FSUnknown, Pkg: fmt.Sprintf("foreign/m%02d", k%7)})
+		}
+	}
 	// decoys: under no root, but the tail names a file that exists under a local root
 	if cfg.Decoys && hasRoot {
 		for k := 1 + r.Intn(3); k > 0; k-- {
